@@ -111,3 +111,19 @@ sexp witness_ok_view (sexp ctx, sexp self, sexp_sint_t n, sexp bv, sexp s, sexp 
   sexp_string_size(res) = sexp_unbox_fixnum(e) - sexp_unbox_fixnum(s);
   return res;
 }
+
+/* C01.k */
+sexp witness_bad_extent (sexp ctx, sexp self, sexp_sint_t n, sexp dst, sexp src, sexp count) {
+  if (sexp_unbox_fixnum(count) < 0 || sexp_unbox_fixnum(count) > (sexp_sint_t)sexp_bytes_length(src))
+    return SEXP_FALSE;
+  memcpy(sexp_bytes_data(dst), sexp_bytes_data(src), sexp_unbox_fixnum(count));
+  return dst;
+}
+
+sexp witness_ok_extent (sexp ctx, sexp self, sexp_sint_t n, sexp dst, sexp src, sexp start, sexp count) {
+  sexp_sint_t s = sexp_unbox_fixnum(start), k = sexp_unbox_fixnum(count);
+  if (s < 0 || k < 0 || s + k > (sexp_sint_t)sexp_bytes_length(src) || k > (sexp_sint_t)sexp_bytes_length(dst))
+    return SEXP_FALSE;
+  memcpy(sexp_bytes_data(dst), sexp_bytes_data(src) + s, k);
+  return dst;
+}
